@@ -95,6 +95,14 @@ func genSched(r *driver.Rand, p *driver.Plan) {
 	}
 	p.Budget = driver.Pick(r, 4000, 4000, 200, 60)
 	p.PreemptN = driver.Pick(r, 0, 0, 0, 2, 4, 8)
+	// FMap: now and then the family with very long images
+	if st, _ := baseStage(p.Stage); st == "FMap" && r.Chance(1, 4) {
+		p.Fn = 4 + 5*r.Intn(12)
+	}
+	// a context that ends by expiry: Err() is DeadlineExceeded, not Canceled
+	if p.X("ctx_deadline") == 0 && r.Chance(1, 8) {
+		p.SetX("ctx_deadline", 2)
+	}
 	// the stages package fork re-exports, through those entry points
 	switch p.Stage {
 	case "Take", "TakeWhile", "Seq", "ToSeq", "Join", "Throttling", "Emit", "Unfold", "StdErr":
